@@ -1,10 +1,63 @@
 /-
-  Drive/Serde.lean — driver suite `serde` (stub; to be implemented).
+  Drive/Serde.lean — driver suite `serde`: serialization of an instance, deserialization of a
+  document, the round trip, JSON purity; mapper-free.
 -/
 import TypedpyModel.Drive.Wire
+import TypedpyModel.Sem.Deser
+import TypedpyModel.Spec.Conforms
 namespace Typedpy.Drive.Serde
 open Lean (Json)
+open Typedpy Typedpy.Wire
 
-def run (_j : Json) : Except String Json := .error "suite serde not implemented"
+def optsOfJson (j : Json) : Except String DeserOpts := do
+  pure { keepUndefined := ← optBool j "keepUndefined" true,
+         ignoreInvalidAddl := ← optBool j "ignoreInvalidAddl" true }
+
+/-- exception classes a deserialization of `doc` may raise, field by field (order-free view) -/
+def fieldErrs (O : Oracles) (opts : DeserOpts) (cls : FieldDecl) (doc : PyVal) : List String :=
+  match cls, doc with
+  | .struct c fields defaults, .dict kvs =>
+    (match kwOfDict kvs with
+      | none => []
+      | some kw =>
+        fields.filterMap fun (name, f) =>
+          match lookup name kw with
+          | none => none
+          | some v => match deser O opts c.ignoreNone f v with
+            | .error e => some (errName e)
+            | .ok y => match (if y.isNone && c.ignoreNone && !c.required.contains name then .ok y else validate O f y) with
+              | .error e => some (errName e)
+              | .ok _ => none)
+  | _, _ => []
+
+def run (j : Json) : Except String Json := do
+  let O ← oraclesOfJson j
+  let cls ← declOfJson (← j.getObjVal? "cls")
+  let opts ← match optField j "opts" with | none => pure {} | some x => optsOfJson x
+  let mut out : List (String × Json) := []
+  if let some kwj := optField j "kw" then
+    let kw ← kwOfJson kwj
+    let inst := construct O cls kw
+    out := out ++ [("inst", resToJson inst)]
+    -- serialize the instance as the real code holds it (real `__dict__` order) when supplied
+    let inst' : R PyVal ← match optField j "x" with
+      | some xj => do pure (.ok (← valOfJson xj))
+      | none => pure inst
+    match inst' with
+    | .ok x =>
+      let s := serialize O cls x
+      out := out ++ [("ser", resToJson s)]
+      match s with
+      | .ok d =>
+        out := out ++ [("isJson", Json.bool (isJson d)), ("back", resToJson (deserialize O opts cls d))]
+      | .error _ => pure ()
+    | .error _ => pure ()
+  if let some dj := optField j "doc" then
+    let d ← valOfJson dj
+    out := out ++ [("deser", resToJson (deserialize O opts cls d)),
+                   ("errs", Json.arr ((fieldErrs O opts cls d).map Json.str).toArray)]
+  if let some ij := optField j "implInst" then
+    out := out ++ [("implWellFormed", Json.bool (wellFormed O cls (← valOfJson ij)))]
+  pure (Json.mkObj out)
 
 end Typedpy.Drive.Serde
